@@ -361,6 +361,72 @@ def domain_ok(op, dtype):
     return True
 
 
+MASK_VALUE_DEPENDENT = {"remainder": "the mask is Where(cond, null(r + b), null(r)) over the sign test (equal to a_null | b_null, but the graph mentions the values)",
+                        "sign": "the mask is expanded to the shape of the values graph (Shape of a values node)"}
+
+
+def mask_graph_row(job):
+    from .. import graphterm
+    from .c02 import G_UNARY
+    ndx = impl.ndx
+    fn, d, an, bn = job
+    unary = fn in G_UNARY
+    try:
+        a = ndx.array(shape=("N",), dtype=impl.dt(("n" if an else "") + d))
+        b = ndx.array(shape=("N",), dtype=impl.dt(("n" if bn else "") + d))
+        out = getattr(ndx, fn)(a) if unary else getattr(ndx, fn)(a, b)
+        model = ndx.build({"a": a} if unary else {"a": a, "b": b}, {"o": out})
+        names = [o.name for o in model.graph.output]
+        if names != ["o_values", "o_null"]:
+            return {"unsupported": f"outputs {names}"}
+        ren = {"a_values": "a", "b_values": "b"}
+        return {"values": graphterm.sexpr(model, "o_values", ren), "null": graphterm.sexpr(model, "o_null", ren)}
+    except Exception as e:
+        return {"unsupported": type(e).__name__}
+
+
+def mask_graph_tie(ctx):
+    """Tie B for the masking rule: for every integer / boolean element-wise function on nullable operands, the
+    exported values graph must be a term of `Ndx.Graph.gterms` (the same graph as for plain operands, proved
+    correct in Props/C02Graph.lean) and the exported null-mask graph a term of `nullTerms2/1`
+    (Props/C04Graph.lean: `null_graph_correct`, `null_graph_ignores_values`, `values_graph_ignores_masks`)."""
+    from .c02 import G_UNARY, G_BINARY
+    jobs = []
+    for fn in G_UNARY + G_BINARY:
+        for d in impl.INTS + ["bool"]:
+            combos = [(True, False)] if fn in G_UNARY else [(True, True), (True, False), (False, True)]
+            jobs += [(fn, d, an, bn) for an, bn in combos]
+    rows = tables.pmap(mask_graph_row, jobs, chunk=8, strict=True)
+    lines = []
+    for fn, d, an, bn in jobs:
+        lines.append(f"gterm {fn} {d}")
+        lines.append("gnull 1" if fn in G_UNARY else f"gnull {int(an)} {int(bn)}")
+    acc = common.model(lines)
+    stats = {"rows": len(jobs), "unsupported_by_library": 0, "values_matched": 0, "mask_matched": 0,
+             "mask_outside_family(value-dependent by construction)": 0}
+    for k, ((fn, d, an, bn), r) in enumerate(zip(jobs, rows)):
+        vterms, nterms = acc[2 * k], acc[2 * k + 1]
+        if "unsupported" in r:
+            stats["unsupported_by_library"] += 1
+            continue
+        if vterms == "~":
+            continue
+        ctx.case(("mask-graph", fn, d, an, bn), True, {"function": fn, "dtype": d, "nullable": [an, bn], **r} if stats["mask_matched"] < 2 else None)
+        if r["values"] in vterms.split(" || "):
+            stats["values_matched"] += 1
+        else:
+            ctx.corr_broken(f"values-graph-of-nullable/{fn}/{d}", {"nullable": [an, bn], "exported_graph": r["values"][:400], "accepted_terms": vterms.split(" || ")[:3]})
+        if r["null"] in nterms.split(" || "):
+            stats["mask_matched"] += 1
+        elif fn in MASK_VALUE_DEPENDENT:
+            stats["mask_outside_family(value-dependent by construction)"] += 1
+        else:
+            ctx.corr_broken(f"mask-graph/{fn}/{d}", {"nullable": [an, bn], "exported_mask_graph": r["null"][:400], "accepted_terms": nterms.split(" || "),
+                                                     "theorem": "Ndx.Graph.null_graph_correct"})
+    stats["value_dependent_mask_functions"] = MASK_VALUE_DEPENDENT
+    ctx.extra["mask_graph_tie"] = stats
+
+
 def run(ctx: common.Ctx):
     ctx.extra["rule"] = (
         "for every operation accepting nullable dtypes (12 unary, 15 binary with broadcasting and mixed nullable/plain "
@@ -388,3 +454,4 @@ def run(ctx: common.Ctx):
         for mode, kind, detail in r["fail"]:
             ctx.violation(f"{r['op']}/{r['dtype']}/{kind}", f"{r['op']}(n{r['dtype']}{r.get('shape')}, {r.get('params', '')}) {mode}: {kind}: {detail}",
                           {"op": r["op"], "dtype": r["dtype"], "shape": r.get("shape"), "mode": mode, "kind": kind, "detail": detail})
+    mask_graph_tie(ctx)
